@@ -90,7 +90,7 @@ func main() {
 		flush(r, 0, execDescriptor(d))
 	}
 	// generated: stress cases, a few at a time in parallel (each has its own pool and log)
-	n := 160 * r.Scale
+	n := 320 * r.Scale
 	modes := []string{"drain", "racing", "racing", "pending", "restart"}
 	type job struct {
 		sub uint64
@@ -128,7 +128,13 @@ func main() {
 			flush(r, j.sub, out[k])
 		}
 		// enough evidence: every further failing case costs its full wait bounds
-		if len(r.Findings) >= 24 {
+		unrecorded := 0
+		for _, f := range r.Findings {
+			if e := f.Signature["effect"]; e != "pushed-after-dispatcher-left-its-loop" && e != "shutdown-signal-lost" {
+				unrecorded++
+			}
+		}
+		if unrecorded >= 24 {
 			r.Count("aborted-after-many-findings")
 
 			break
